@@ -47,6 +47,9 @@ func runC19(c *ctx) {
 	c.r.Rule = "validate / validateFilterSection / planBlockFilterReads / the chunked region reader vs the Lean bounds model on arbitrary and boundary int64 framing values; " +
 		"CRC-consistent re-footers with arbitrary field values through ReadFileMetadata and the read helpers under recover with an allocation meter; byte-level mutants (flip, burst, truncate, extend, splice) " +
 		"of engine-written files through the read helpers and through queries with MemoryMetaStore-held metadata and with metadata re-read from the mutant. Non-trivial = the mutant/metadata differs from the original; distinct by content hash"
+	if !c19ReversedSectionsChild(c) {
+		return // the same layout would bring this process down too: report what the child showed
+	}
 	c19Validators(c)
 	c19Chunks(c)
 	c19Refooter(c)
@@ -761,6 +764,50 @@ func c19RefooterBoundaries(c *ctx) {
 			c.r.Add(Finding{Kind: "violation", Check: "refooter-foreign-row", Detail: fmt.Sprintf("the row scanner returned a row that was never written / is not made of the block's declared row data (%s): %q", what, trunc(foreign, 120)), Replay: replay})
 		}
 	}
+	// (c) a negative file filter section size (it moves the limit the other extents are checked against past the
+	// end of the file) combined with a region / block that reaches as far beyond the file
+	for _, neg := range []int{1, 1000, 64 << 20} {
+		for variant := 0; variant < 3; variant++ {
+			blocks := append([]bs.DataBlockMetadata(nil), meta0.DataBlocks...)
+			regionSize := meta0.BlockFilterRegionSize
+			last := len(blocks) - 1
+			switch variant {
+			case 0:
+				regionSize += neg
+			case 1:
+				blocks[last].BloomFilterSize += neg
+				regionSize += neg
+			case 2:
+				regionSize += neg
+				blocks[last].HasRowDataHash, blocks[last].RowDataHash = false, 0
+			}
+			mj, _ := json.Marshal(struct {
+				BloomFalsePositiveRate  float64
+				BlockFilterRegionOffset int
+				BlockFilterRegionSize   int
+				FileFilterSectionSize   int
+				DataBlocks              []bs.DataBlockMetadata
+			}{meta0.BloomFalsePositiveRate, meta0.BlockFilterRegionOffset, regionSize, -neg, blocks})
+			mutant := append(append([]byte(nil), body...), footerFor(mj, fileFilter)...)
+			what := fmt.Sprintf("negative-file-filter-size FileFilterSectionSize=%d, region size %d (variant %d)", -neg, regionSize, variant)
+			c.r.Case(true, what)
+			c.r.Hit("refooter-boundary.negative-file-filter-size")
+			var md *bs.FileMetadata
+			var rerr error
+			pv, alloc := guarded(func() { md, _, rerr = bs.ReadFileMetadata(bytes.NewReader(mutant)) })
+			replay := map[string]any{"FileFilterSectionSize": -neg, "BlockFilterRegionSize": regionSize, "variant": variant, "file_bytes": len(mutant)}
+			if pv != nil {
+				c.r.Add(Finding{Kind: "violation", Check: "refooter-panic", Detail: fmt.Sprintf("ReadFileMetadata panicked (%s): %v", what, pv), Replay: replay})
+				continue
+			}
+			if alloc > uint64(8*len(mutant)+2<<20) {
+				c.r.Add(Finding{Kind: "violation", Check: "refooter-alloc", Detail: fmt.Sprintf("ReadFileMetadata allocated %d bytes for a %d-byte file (%s)", alloc, len(mutant), what), Replay: replay})
+			}
+			if rerr == nil && md != nil && md.BlockFilterRegionOffset+md.BlockFilterRegionSize > len(mutant) {
+				c.r.Add(Finding{Kind: "violation", Check: "refooter-out-of-bounds", Detail: fmt.Sprintf("ReadFileMetadata accepted a %d-byte file whose metadata declares a block filter region ending at byte %d (%s)", len(mutant), md.BlockFilterRegionOffset+md.BlockFilterRegionSize, what), Replay: replay})
+			}
+		}
+	}
 	for bi := range meta0.DataBlocks {
 		// (a) tiny filter sections everywhere in the region
 		for size := 0; size <= 8; size++ {
@@ -797,4 +844,32 @@ func c19RefooterBoundaries(c *ctx) {
 			pos += 4 + l
 		}
 	}
+}
+
+// c19ReversedSectionsChild: a file whose filter sections lie in the region in the reverse order of its row data
+// (legal for an external writer; CRC-valid, inside the region) is queried with bloom conditions in a process
+// of its own: a panic in one of the engine's goroutines cannot be recovered by the caller, so the parent judges
+// the child's exit. The queries must end with rows or an error - not with the process.
+func c19ReversedSectionsChild(c *ctx) bool {
+	ok, out := runChild("reversed-sections-query")
+	c.r.Case(true, "reversed-sections-child")
+	c.r.Hit("child.reversed-sections-query")
+	if !ok {
+		c.r.Add(Finding{Kind: "violation", Check: "query-crashes-process", Detail: "a bloom-conditioned query over a valid file whose filter sections are stored in reverse block order brought the process down: " + trunc(lastLines(out, 6), 600), Replay: map[string]any{"scenario": "harness child reversed-sections-query", "output": trunc(out, 3000)}})
+	}
+	return ok
+}
+
+func lastLines(s string, n int) string {
+	ls := strings.Split(strings.TrimSpace(s), "\n")
+	// the panic message is at the top of a Go crash dump
+	for i, l := range ls {
+		if strings.HasPrefix(l, "panic:") || strings.HasPrefix(l, "fatal error:") {
+			return strings.Join(ls[i:min(i+n, len(ls))], " | ")
+		}
+	}
+	if len(ls) > n {
+		ls = ls[len(ls)-n:]
+	}
+	return strings.Join(ls, " | ")
 }
